@@ -453,6 +453,8 @@ func targetSource() string {
 		fmt.Fprintf(&sb, "\tif gb {\n\t\treturn \"a\", r%d()\n\t}\n", j)
 	}
 	sb.WriteString("\treturn \"\", 0\n}\n")
+	// result lists written in every way, functions of every kind (returns.go)
+	sb.WriteString(retShellSource())
 	return sb.String()
 }
 
@@ -819,6 +821,8 @@ type sinkSite struct {
 	ctx  *sinkCtx // nil for the return sites
 	sink string
 	par  string
+	// retStmt: the return contexts of returns.go: the statement (the function around it is in the model input)
+	retStmt string
 }
 
 func typePred(name, ctor string, mk func(v string) *filt.DExpr, f func(e *env, t types.Type) tri) pred {
@@ -1257,6 +1261,9 @@ type obs struct {
 	// Detached: the verdict on a copy of the file that exists in memory only (nothing is saved at its path); absent for the
 	// predicates that read the capture's text where the engine's rendering of the capture is not the source spelling
 	Detached *bool `json:"detached,omitempty"`
+	// edge family: the capture (file index, from, to) and what go/printer prints for its node
+	Ext     []int  `json:"ext,omitempty"`
+	Printed string `json:"printed,omitempty"`
 }
 
 type ruleOut struct {
@@ -1273,6 +1280,8 @@ type ruleOut struct {
 	// Refusable: the spelling is one the loader may refuse (an ordering comparison with the constant on the left); if it
 	// loads it must mean the mirrored comparison
 	Refusable bool `json:"refusable,omitempty"`
+	// Const: edge family: the constant the capture's text is compared with
+	Const string `json:"const,omitempty"`
 }
 
 type rule struct {
@@ -1287,6 +1296,7 @@ type rule struct {
 func main() {
 	tmp := flag.String("tmp", "", "scratch directory")
 	only := flag.String("only", "", "restrict to predicates whose name contains this")
+	edges := flag.Bool("edges", false, "also run the Text predicates on captures at the edges of files (edges.go)")
 	flag.Parse()
 	enc := json.NewEncoder(os.Stdout)
 	t, err := hutil.CheckTarget(*tmp, "target/target.go", []byte(targetSource()))
@@ -1394,9 +1404,10 @@ func main() {
 		return true
 	})
 	// expected sink / parent of the r sites: the first len(sinks) follow the table, then the three return forms
+	rsites := retSites()
 	for j := 0; j < W; j++ {
-		if len(rcalls[j]) != len(sinks)+4 {
-			fmt.Fprintf(os.Stderr, "r%d has %d sites, expected %d\n", j, len(rcalls[j]), len(sinks)+4)
+		if len(rcalls[j]) != len(sinks)+4+len(rsites) {
+			fmt.Fprintf(os.Stderr, "r%d has %d sites, expected %d\n", j, len(rcalls[j]), len(sinks)+4+len(rsites))
 			os.Exit(3)
 		}
 		for i, s := range rcalls[j] {
@@ -1410,8 +1421,15 @@ func main() {
 				s.sink, s.par = "int64", "CallExpr"
 			case i == len(sinks)+2:
 				s.sink, s.par = "int", "ParenExpr"
-			default:
+			case i == len(sinks)+3:
 				s.sink, s.par = "int", "ReturnStmt" // second result of (string, int)
+			default:
+				rs := rsites[i-len(sinks)-4]
+				s.sink, s.par = rs.sink, rs.par
+				s.retStmt = rs.stmt
+			}
+			if i >= len(sinks) {
+				e.checkReturnSite(s)
 			}
 		}
 	}
@@ -1655,7 +1673,10 @@ func main() {
 			case "dollar":
 				for i, s := range rcalls[r.j] {
 					s := s
-					ctx := "return"
+					if s.retStmt != "" {
+						continue // the return contexts of returns.go are about the sink; `$$` is the same call everywhere
+					}
+					ctx := e.returnCtx(s)
 					if s.ctx != nil {
 						ctx = s.ctx.stmt
 					}
@@ -1668,7 +1689,7 @@ func main() {
 				}
 			case "root":
 				for i, s := range rcalls[r.j] {
-					ctx := "return"
+					ctx := e.returnCtx(s)
 					if s.ctx != nil {
 						ctx = s.ctx.stmt
 					}
@@ -1975,7 +1996,7 @@ func main() {
 		}
 	}
 	for _, s := range rcalls[0] {
-		ctx := "return"
+		ctx := e.returnCtx(s)
 		if s.ctx != nil {
 			ctx = s.ctx.stmt
 		}
@@ -1983,6 +2004,12 @@ func main() {
 	}
 	for _, r := range rules {
 		enc.Encode(r.out)
+	}
+	// ---- Text predicates on captures at the edges of files with unusual byte layouts (edges.go)
+	if *edges {
+		for _, ro := range edgeRules(*tmp, enc) {
+			enc.Encode(ro)
+		}
 	}
 	enc.Encode(map[string]interface{}{"k": "meta", "rules": len(rules), "exprs": len(exprs), "multis": len(multis), "stmts": len(stmts) - 1, "sinks": len(sinks) + 4,
 		"gotypesalias": os.Getenv("GODEBUG")})
